@@ -59,6 +59,36 @@ def sam_ranges(drv):
     return out
 
 
+def tile_bases():
+    """per shipped mesh example: start of cluster (x, y)'s range, keyed by x*4+y, and the starts of all ranges,
+    read from the description (element k of an array owns [base + k*size, base + (k+1)*size))"""
+    out = {}
+    for f in sorted(glob.glob(os.path.join(REPO, "floogen", "examples", "*_mesh_*.yml"))):
+        base = os.path.basename(f)
+        if not (base.startswith("axi_mesh") or base.startswith("nw_mesh")):
+            continue
+        cfg = impl.load_yaml(f)
+        local, starts = {}, set()
+        for e in cfg["endpoints"]:
+            rs = e.get("addr_range")
+            if rs is None:
+                continue
+            rs = rs if isinstance(rs, list) else [rs]
+            arr = e.get("array")
+            cnt = 1
+            if arr is not None:
+                for a in (arr if isinstance(arr, list) else [arr]):
+                    cnt *= a
+            for r in rs:
+                for k in range(cnt):
+                    st = r["base"] + k * r["size"] if "base" in r else r["start"]
+                    starts.add(st)
+                    if e["name"] == "cluster":
+                        local[k] = st
+        out[base] = (local, starts)
+    return out
+
+
 def inside(ranges, a, ln):
     return any(lo <= a and (a + ln <= hi or hi == 0) for lo, hi in ranges)
 
@@ -70,9 +100,11 @@ class C19Runner:
         drv = lean.Driver()
         mod = load_gen_jobs()
         sams = sam_ranges(drv)
+        bases = tile_bases()
         rng = random.Random(repr((seed, pid)))
-        grid = [(1, 1), (1, 16), (4, 64), (16, 1024), (1, 1040), (8193, 16), (3, 1000), (1, 48)] if tier == "quick" else \
-               [(a, b) for a in (1, 2, 16, 256, 9000) for b in (1, 2, 3, 16, 100, 512, 1024, 1025, 4096)]
+        grid = [(1, 1), (1, 16), (4, 64), (16, 1024), (1, 1040), (8193, 16), (3, 1000), (1, 48), (2000, 16), (8192, 4)] \
+            if tier == "quick" else \
+               [(a, b) for a in (1, 2, 16, 256, 1025, 4096, 8192, 9000) for b in (1, 2, 3, 16, 100, 512, 1024, 1025, 4096)]
         stats = collections.Counter()
         samples = []
         evaluations = 0
@@ -98,8 +130,22 @@ class C19Runner:
                     # decide the property on what the real script wrote, against the real address maps
                     for ex, ranges in sams.items():
                         for idx, jl in jobs.items():
+                            local, starts = bases[ex]
                             for (ln, src, dst) in jl:
                                 stats["jobs-checked"] += 1
+                                # the tile's own end of a transfer is the start of its cluster's range, the other end
+                                # the start of some endpoint's range (zero-length jobs are dropped by the testbench)
+                                if ln > 0 and ("local", traffic) not in reported and \
+                                        not ((src == local.get(idx % 100) and dst in starts) or
+                                             (dst == local.get(idx % 100) and src in starts)):
+                                    reported.add(("local", traffic))
+                                    f = {"claim": "job-base-address", "site": f"{traffic}/{rw} tile file {idx}",
+                                         "detail": f"len={ln} src={hex(src)} dst={hex(dst)}: neither end is the start of cluster "
+                                                   f"{(idx % 100) // 4},{(idx % 100) % 4}'s range ({hex(local.get(idx % 100, -1))}) with the "
+                                                   f"other end at the start of a range of {ex}"}
+                                    rep.finding(f, {"property": pid, "finding": f, "traffic": traffic, "rw": rw,
+                                                    "narrow_burst_length": nbl, "wide_burst_length": wbl,
+                                                    "num_narrow_bursts": nnb, "num_wide_bursts": nwb, "example": ex})
                                 if not (inside(ranges, src, ln) and inside(ranges, dst, ln)):
                                     claim = "job-outside-map"
                                     key = (traffic,)
@@ -148,12 +194,17 @@ class C19Runner:
         drv = lean.Driver()
         mod = load_gen_jobs()
         sams = sam_ranges(drv)
+        bases = tile_bases()
         drv.close()
         jobs = real_jobs(mod, payload["traffic"], payload["rw"], payload["narrow_burst_length"],
                          payload["wide_burst_length"], payload["num_narrow_bursts"], payload["num_wide_bursts"])
         bad = [(idx, j) for idx, jl in jobs.items() for j in jl
                if not (inside(sams[payload["example"]], j[1], j[0]) and inside(sams[payload["example"]], j[2], j[0]))]
         print(f"{len(bad)} jobs outside the address map of {payload['example']}")
-        if bad:
+        local, starts = bases[payload["example"]]
+        bad2 = [(idx, j) for idx, jl in jobs.items() for j in jl if j[0] > 0 and
+                not ((j[1] == local.get(idx % 100) and j[2] in starts) or (j[2] == local.get(idx % 100) and j[1] in starts))]
+        print(f"{len(bad2)} jobs whose ends are not the tile's own base and the start of a range")
+        if bad or bad2:
             rep.finding(payload["finding"], payload)
         return rep.exit_code()
